@@ -291,6 +291,18 @@ fn ref_head(major: u8, n: u64, out: &mut [u8; 9]) -> usize {
     }
 }
 
+/// Every IanaTag variant with its registered number (IANA CBOR tags registry / RFC 8746).
+pub fn iana_tags() -> Vec<(minicbor::data::IanaTag, u64)> {
+        use minicbor::data::IanaTag::*;
+        vec![
+            (DateTime, 0u64), (Timestamp, 1), (PosBignum, 2), (NegBignum, 3), (Decimal, 4), (Bigfloat, 5), (ToBase64Url, 21), (ToBase64, 22), (ToBase16, 23), (Cbor, 24), (Uri, 32),
+            (Base64Url, 33), (Base64, 34), (Regex, 35), (Mime, 36), (MultiDimArrayR, 40), (HomogenousArray, 41), (TypedArrayU8, 64), (TypedArrayU16B, 65), (TypedArrayU32B, 66),
+            (TypedArrayU64B, 67), (TypedArrayU8Clamped, 68), (TypedArrayU16L, 69), (TypedArrayU32L, 70), (TypedArrayU64L, 71), (TypedArrayI8, 72), (TypedArrayI16B, 73),
+            (TypedArrayI32B, 74), (TypedArrayI64B, 75), (TypedArrayI16L, 77), (TypedArrayI32L, 78), (TypedArrayI64L, 79), (TypedArrayF16B, 80), (TypedArrayF32B, 81),
+            (TypedArrayF64B, 82), (TypedArrayF128B, 83), (TypedArrayF16L, 84), (TypedArrayF32L, 85), (TypedArrayF64L, 86), (TypedArrayF128L, 87), (MultiDimArrayC, 1040),
+        ]
+}
+
 /// An iterator adaptor whose size hint has no upper bound: `(0, None)` or, with `lower`, `(remaining, None)`.
 #[derive(Clone)]
 struct Hint<I> {
@@ -470,14 +482,7 @@ fn builtin_types(r: &Report) {
     }
     // IanaTag: encodes as the head of its registered number; Tag <-> IanaTag conversions are inverse
     {
-        use minicbor::data::IanaTag::*;
-        let all = [
-            (DateTime, 0u64), (Timestamp, 1), (PosBignum, 2), (NegBignum, 3), (Decimal, 4), (Bigfloat, 5), (ToBase64Url, 21), (ToBase64, 22), (ToBase16, 23), (Cbor, 24), (Uri, 32),
-            (Base64Url, 33), (Base64, 34), (Regex, 35), (Mime, 36), (MultiDimArrayR, 40), (HomogenousArray, 41), (TypedArrayU8, 64), (TypedArrayU16B, 65), (TypedArrayU32B, 66),
-            (TypedArrayU64B, 67), (TypedArrayU8Clamped, 68), (TypedArrayU16L, 69), (TypedArrayU32L, 70), (TypedArrayU64L, 71), (TypedArrayI8, 72), (TypedArrayI16B, 73),
-            (TypedArrayI32B, 74), (TypedArrayI64B, 75), (TypedArrayI16L, 77), (TypedArrayI32L, 78), (TypedArrayI64L, 79), (TypedArrayF16B, 80), (TypedArrayF32B, 81),
-            (TypedArrayF64B, 82), (TypedArrayF128B, 83), (TypedArrayF16L, 84), (TypedArrayF32L, 85), (TypedArrayF64L, 86), (TypedArrayF128L, 87), (MultiDimArrayC, 1040),
-        ];
+        let all = iana_tags();
         let mut n = 0u64;
         for (t, num) in all {
             n += 1;
